@@ -238,6 +238,37 @@ func ruleWritePath(c *Ctx, r *Report) {
 		ok, why := guardedBy(hs[0], hs[0], wr[0])
 		r.Check(ok, rule, short(fn), c.ipos(wr[0]), "application data is written only after Handshake() returned nil", "Write can emit application data before/without a completed handshake: "+why)
 	}
+	// every read of the connection state that shapes the record (CID wrapping, epoch) happens
+	// after Handshake(): a resumed connection only receives its real state inside the first Handshake()
+	if len(hs) == 1 {
+		for _, b := range fn.Blocks {
+			for _, in := range b.Instrs {
+				call, ok := in.(*ssa.Call)
+				if !ok || call == hs[0] {
+					continue
+				}
+				callee := call.Call.StaticCallee()
+				if callee == nil || !inModule(callee) {
+					continue
+				}
+				readsState := false
+				for _, u := range c.unitFuncs(callee) {
+					for _, ub := range u.Blocks {
+						for _, ui := range ub.Instrs {
+							if _, f, _, okF := fieldLoad(valueOfInstr(ui)); okF && f == "state" {
+								readsState = true
+							}
+						}
+					}
+				}
+				if !readsState || short(callee) == "(*dtls.Conn).Handshake" {
+					continue
+				}
+				ok2, why := guardedBy(hs[0], hs[0], call)
+				r.Check(ok2, rule, short(fn)+":state-read:"+callee.Name(), c.ipos(call), "reads Conn.state only after Handshake() returned nil", "Write consults the connection state through "+short(callee)+" before/without Handshake(): on a resumed connection the state is still the placeholder, so the first record is built from it (no connection ID, wrong epoch): "+why)
+			}
+		}
+	}
 	for _, s := range c.CallsToName("(*dtls.Conn).writeApplicationData") {
 		r.Check(s.Fn == fn, rule, "writeApplicationData<-"+short(s.Fn), c.ipos(s.Call), "only Write sends application data", "application data writer called from outside Write (bypasses the handshake gate)")
 	}
@@ -316,4 +347,12 @@ func ruleWritePath(c *Ctx, r *Report) {
 		}
 		r.Check(okAll && apps > 0, rule, short(pf)+":encrypted-output", c.pos(pf.Pos()), "with ShouldEncrypt every record appended to the output passed CipherSuite.Encrypt", "a handshake record that requests encryption can be emitted without CipherSuite.Encrypt")
 	}
+}
+
+
+func valueOfInstr(in ssa.Instruction) ssa.Value {
+	if v, ok := in.(ssa.Value); ok {
+		return v
+	}
+	return nil
 }
